@@ -144,6 +144,8 @@ class AioRun:
         self.busy = None
         self.first_issue: dict = {}
         self.stuck_tasks: list = []
+        self.shared_ssl_context = False
+        self.pools: list = []
         self.epilogue_stuck = False
 
     # ------------------------------------------------------------------ gate
@@ -165,7 +167,7 @@ class AioRun:
 
     # ------------------------------------------------------------------ callers
     async def _step(self, caller: Caller, step: dict):
-        pool = self.pool
+        pool = self.pools[step.get("pool", 0)]
         mode = step.get("mode", "read_all")
         spec = dict(step["spec"])
         t0 = self.world.clock.now
@@ -394,7 +396,16 @@ class AioRun:
         self.world.deliver_gated = True
         self._install_shield_probe()
         try:
-            self.pool = build_pool(self.world, self.pool_cfg, sync=False)
+            if isinstance(self.pool_cfg, list):
+                # several pools in one process, optionally sharing ONE ssl context object (a common application set-up)
+                from .simnet import FakeSSLContext
+
+                shared = FakeSSLContext("origin-ctx") if self.shared_ssl_context else None
+                self.pools = [build_pool(self.world, c, sync=False, ssl_context=shared) for c in self.pool_cfg]
+                self.pool = self.pools[0]
+            else:
+                self.pool = build_pool(self.world, self.pool_cfg, sync=False)
+                self.pools = [self.pool]
             while True:
                 try:
                     await self.quiesce()
